@@ -103,9 +103,9 @@ def build(features=(), variant='32'):
     u.item(cr, 'isaac_array::RAND_SIZE')
     u.struct(cr, 'isaac_array::IsaacArray')
     u.impl(cr, 'isaac_array::Deref@IsaacArray', header='impl<T> ::core::ops::Deref for IsaacArray<T>', keep=['type Target'], fns=['deref'], contracts={
-        'deref': Fn(None, ret='r', builtin_props='C14', ensures=[C(p + '.isaac_array.deref', 'C03 C05', '*r == self.inner')])})
+        'deref': Fn(None, ret='r', builtin_props='C14 C18', ensures=[C(p + '.isaac_array.deref', 'C03 C05', '*r == self.inner')])})
     u.impl(cr, 'isaac_array::DerefMut@IsaacArray', header='impl<T> ::core::ops::DerefMut for IsaacArray<T>', fns=['deref_mut'], contracts={
-        'deref_mut': Fn(None, ret='r', builtin_props='C14', ensures=[C(p + '.isaac_array.deref_mut', 'C03 C05', '*r == old(self).inner && *final(r) == final(self).inner')])})
+        'deref_mut': Fn(None, ret='r', builtin_props='C14 C18', ensures=[C(p + '.isaac_array.deref_mut', 'C03 C05', '*r == old(self).inner && *final(r) == final(self).inner')])})
     u.skip('isaac_array::{AsRef, AsMut, Default, PartialEq, Clone}@IsaacArray', 'slice views `&self.inner[..]`, slice PartialEq, generic Default: Kani harnesses isaac_array_glue (C10, C11)')
     u.raw('}')
 
@@ -181,7 +181,7 @@ def build(features=(), variant='32'):
         key_post = 'r.mem@ == randinit(zero_slots().update(0, w(seed as u32)).update(1, w((seed >> 32u64) as u32)), 1)'
     else:
         key_post = 'r.mem@ == randinit(zero_slots().update(0, w(seed)), 1)'
-    sfu = Fn(None, ret='r', builtin_props='C14',
+    sfu = Fn(None, ret='r', builtin_props='C14 C18',
              ensures=[C(p + '.seed_from_u64.key_one_pass', 'C03 C09', key_post + ' && r.a.0 == 0 && r.b.0 == 0 && r.c.0 == 0')],
              inserts=[RS_ENTRY, before(lit('Self::init(key, 1)'), 'proof { assert(key@ =~= zero_slots().update(0, key@[0]).update(1, key@[1])); }' if variant == '32' else
                              'proof { assert(key@ =~= zero_slots().update(0, key@[0])); }')])
@@ -192,11 +192,11 @@ def build(features=(), variant='32'):
           '    open spec fn obeys_eq_spec() -> bool { true }\n'
           '    open spec fn eq_spec(&self, other: &%s) -> bool { self.mem@ =~= other.mem@ && self.a == other.a && self.b == other.b && self.c == other.c }\n}' % (core, core))
     u.impl(cr, mod + '::PartialEq@' + core, header='impl PartialEq for ' + core, fns=['eq'], contracts={
-        'eq': Fn(None, ret='r', builtin_props='C14', trait_props='C10', ensures=[
+        'eq': Fn(None, ret='r', builtin_props='C14 C18', trait_props='C10', ensures=[
             C(p + '.core.eq.iff_all_fields', 'C10', 'r == (self.mem@ =~= other.mem@ && self.a.0 == other.a.0 && self.b.0 == other.b.0 && self.c.0 == other.c.0)')],
             inserts=[entry('proof { assert(RAND_SIZE == 256) by (compute_only); assert(self.mem@.subrange(0, 256) =~= self.mem@); assert(other.mem@.subrange(0, 256) =~= other.mem@); }')])})
     u.impl(cr, mod + '::Clone@' + core, header='impl Clone for ' + core, fns=['clone'], contracts={
-        'clone': Fn(None, ret='r', builtin_props='C14', ensures=[
+        'clone': Fn(None, ret='r', builtin_props='C14 C18', ensures=[
             C(p + '.core.clone.all_fields', 'C10', 'r.mem@ =~= self.mem@ && r.a.0 == self.a.0 && r.b.0 == self.b.0 && r.c.0 == self.c.0')])})
     u.skip(mod + '::%sRng wrappers' % ('Isaac' if variant == '32' else 'Isaac64'), 'thin wrappers over rand_core::block::BlockRng/BlockRng64 (dependency code): Kani (C05, C09, C10)')
     u.raw('}')
